@@ -36,6 +36,15 @@ func verifDir() string {
 	return "/verif"
 }
 
+// outDir is where replays/ and evidence/ are written: /verif, unless VERIF_OUT names another directory
+// (used when a deliberately broken tree is checked, so that the committed evidence stays that of the real tree).
+func outDir() string {
+	if d := os.Getenv("VERIF_OUT"); d != "" {
+		return d
+	}
+	return verifDir()
+}
+
 func main() {
 	if len(os.Args) < 2 {
 		usage()
@@ -199,7 +208,7 @@ func markerPath(prop string, w int) string {
 }
 
 func replayPath(prop, sig string) string {
-	return filepath.Join(verifDir(), "replays", fmt.Sprintf("%s-%016x.json", prop, core.HashStr(sig)))
+	return filepath.Join(outDir(), "replays", fmt.Sprintf("%s-%016x.json", prop, core.HashStr(sig)))
 }
 
 // runWorker args: prop tier w W startIdx deadlineUnix
@@ -254,7 +263,7 @@ func runWorker(a []string) int {
 				t = mt
 			}
 			t.Signature = prop + ".hang|run|unknown"
-			path := filepath.Join(verifDir(), "replays", fmt.Sprintf("%s-hang-%d.json", prop, idx))
+			path := filepath.Join(outDir(), "replays", fmt.Sprintf("%s-hang-%d.json", prop, idx))
 			_ = t.Save(path)
 			emit(wmsg{T: "hang", Idx: idx, Replay: path, Sig: t.Signature})
 			agg.Runs++
@@ -434,8 +443,8 @@ func runParent(prop, tier string) int {
 	if maxRuns < W {
 		W = maxRuns
 	}
-	_ = os.MkdirAll(filepath.Join(verifDir(), "replays"), 0o755)
-	_ = os.MkdirAll(filepath.Join(verifDir(), "evidence"), 0o755)
+	_ = os.MkdirAll(filepath.Join(outDir(), "replays"), 0o755)
+	_ = os.MkdirAll(filepath.Join(outDir(), "evidence"), 0o755)
 	deadline := time.Now().Add(time.Duration(sec) * time.Second)
 	self, _ := os.Executable()
 
@@ -820,5 +829,5 @@ func writeEvidence(p core.Property, tier string, tot wmsg, distinct int, wall fl
 		"violations":  unlisted,
 	}
 	b, _ := json.MarshalIndent(ev, "", " ")
-	_ = os.WriteFile(filepath.Join(verifDir(), "evidence", p.ID()+".json"), append(b, '\n'), 0o644)
+	_ = os.WriteFile(filepath.Join(outDir(), "evidence", p.ID()+".json"), append(b, '\n'), 0o644)
 }
